@@ -347,7 +347,7 @@ H("c16_wq_drop_seq", M, "C16", ["C16", "C17"], "thorough",
   rules=MEMRULES, fp_restrict=FP, builtin_oracle=True, unwind=6, mem_gb=24, teardown=True)
 H("c16_wq_drop_ptrwin", M, "C16", ["C16", "C11"], "thorough",
   "whole queue, REAL memory manager: drop of a stream's last handle preempted at every stream-list pointer access and lock by up to 4 operations of the others (add_stream, try_recv, drop of the new stream, try_send) that retire the list it is walking, cross the reclamation threshold, announce and reclaim",
-  "19 pre-loaded retirements, window: pointer cells + locks, budget 4, up to 4 ops per site", rules=MEMRULES, fp_restrict=FP, builtin_oracle=True, unwind=6, mem_gb=24, teardown=True, timeout=3000)
+  "19 pre-loaded retirements, window: pointer cells + locks + allocation calls, budget 4, up to 4 ops per site", rules=MEMRULES, fp_restrict=FP, builtin_oracle=True, unwind=6, mem_gb=24, teardown=True, timeout=3000)
 H("c18_mp_frozen_recv", T, "C18", ["C18", "C01", "C06"], "quick",
   "mpmc: the consumer is frozen at a solver-chosen shared access of try_recv while one producer's try_send runs alone: bounded own steps, bounded retry loops",
   "N=2, budget 1")
